@@ -5,6 +5,7 @@ commands answer `bad-op` — the driver never defaults.
 -/
 import ShapeVerif.Model.Primitive
 import ShapeVerif.Model.CurveIn
+import ShapeVerif.Model.WindCurved
 
 open ShapeVerif
 
@@ -138,6 +139,17 @@ def run (cmd : String) : P String := do
   | "memw" => do let s ← pShape; let p ← pPt; pure (fBool (s.memW p))
   | "onb" => do let s ← pShape; let p ← pPt; pure (fBool (s.jordans.any fun j => j.onBoundary p))
   | "wind" => do let j ← pJordan; let p ← pPt; pure (toString (wind j.edges p))
+  | "windc" => do let j ← pJordan; let p ← pPt; pure s!"{windCurved j p} {fBool (offBoundaryCert j p)}"
+  | "memc" => do
+    let s ← pShape; let p ← pPt
+    let cert := s.jordans.all fun j => offBoundaryCert j p
+    let m := match s with
+      | .empty => false
+      | .whole => true
+      | .simple j => memCurved j p
+      | .connected js => js.all fun j => memCurved j p
+      | .disjoint cs => cs.any fun c => c.all fun j => memCurved j p
+    pure s!"{fBool m} {fBool cert}"
   | "jsplit" => do
       let j ← pJordan
       let ps ← pList (do let i ← pNat; let t ← pRat; pure (i, t))
